@@ -237,7 +237,7 @@ def marshal(v, big=False, pos=0, fdt=None):
                 go(x)
                 if not fixed(v[1]):
                     n = len(out) - ks
-                    offs([ke], width(n, 0))            # zvariant: for_encoded_container(entry_size)
+                    offs([ke], width(n, 1))            # zvariant: for_bare_container(entry_size, 1)
                 ends.append(len(out) - start)
             if not (fixed(v[1]) and fixed(v[2])) and len(out) > start:
                 offs(ends, width(len(out) - start, len(ends)))
